@@ -113,6 +113,15 @@ structure Geo where
   error : Option String
   deriving Repr, Inhabited
 
+def insertId (x : Nat) : List Nat → List Nat
+  | [] => [x]
+  | y :: ys => if x ≤ y then x :: y :: ys else y :: insertId x ys
+
+/-- ascending order of factor ids (a derived factor's dependencies have smaller ids) -/
+def sortIds : List Nat → List Nat
+  | [] => []
+  | x :: xs => insertId x (sortIds xs)
+
 def product {α} : List (List α) → List (List α)
   | [] => [[]]
   | l :: ls => l.flatMap (fun x => (product ls).map (fun t => x :: t))
@@ -124,7 +133,7 @@ def excludedLevels (cs : List Scoped) : List (Nat × Nat) :=
     with the within-trial derivations and use no excluded level. -/
 def trialWorlds (d : Design) (design : List Nat) (excl : List (Nat × Nat)) : List (List (Nat × Nat)) :=
   let simple := design.filter (fun id => !(isDerived (d.factor id)))
-  let derivedNC := design.filter (fun id => isDerived (d.factor id) && !(isComplex d id))
+  let derivedNC := sortIds (design.filter (fun id => isDerived (d.factor id) && !(isComplex d id)))
   let base := product (simple.map (fun id => (List.range (numLevels d id)).map (fun l => (id, l))))
   base.filterMap (fun asg =>
     -- derive non-complex derived factors in id order (dependencies have smaller ids)
@@ -382,7 +391,7 @@ def valid (d : Design) (s : Seq) : Bool := validG d (geo d d.block) s
 /-- Fill in the derived factors of a sequence of simple-factor choices, trial by trial. -/
 def deriveAll (d : Design) (g : Geo) (simpleRows : List (List (Nat × Nat))) : Option Seq :=
   let simpleIds := g.design.filter (fun id => !(isDerived (d.factor id)))
-  let derivedIds := g.design.filter (fun id => isDerived (d.factor id))
+  let derivedIds := sortIds (g.design.filter (fun id => isDerived (d.factor id)))
   let base : Seq := simpleIds.map (fun id => (id, simpleRows.map (fun row => (row.find? (·.1 == id)).map (·.2))))
   -- derived factors in id order; each column computed from already known columns
   derivedIds.foldl (fun (acc : Option Seq) id =>
